@@ -171,6 +171,40 @@ def loop_programs(rng, n):
     return out
 
 
+def core_match_programs(ctx):
+    """the scrutinee x pattern tables once more in the core fragment (lean/P2sh/Core: theorems match_first_arm,
+    match_none_is_null, match_compiled): every result goes to a global; op `core` compares the functional compiler's
+    bytes, line table and constants, its machine and the reference evaluation with the real compiler and VM"""
+    out = []
+    for kind, dom in DOMS.items():
+        pats = [pat_lit(kind, v) for v in dom if pat_lit(kind, v)]
+        if kind != "bool":
+            pos = [v for v in dom if pat_lit(kind, v)]
+            for a, b in itertools.product(pos, pos):
+                pats.append(f"{pat_lit(kind, a)}..{pat_lit(kind, b)}")
+                pats.append(f"{pat_lit(kind, a)}..={pat_lit(kind, b)}")
+        for p in pats:
+            body = []
+            for i, v in enumerate(dom):
+                body.append(f"let a{i} = match {scrut(kind, v)} {{ {p} => 1 }};")
+                body.append(f"let b{i} = match {scrut(kind, v)} {{ {p} => {{ 1 }} _ => 2 }};")
+            out.append("\n".join(body) + "\n")
+        for p1, p2 in itertools.islice(itertools.product(pats, pats), 0, None, max(1, len(pats) * len(pats) // ctx.scale(100, 2000))):
+            body = []
+            for i, v in enumerate(dom):
+                body.append(f"let a{i} = match {scrut(kind, v)} {{ {p1} => 1, {p2} => 2 }};")
+                body.append(f"let b{i} = match {scrut(kind, v)} {{ {p1} | {p2} => 3, _ => 4 }};")
+            out.append("\n".join(body) + "\n")
+    # the scrutinee is evaluated once (its assignment happens once); a scrutinee of another kind
+    out.append("let x = 0;\nlet r = match (x = x + 1) { 0 => 10, 1 => 11, 2 => 12 };\nlet s = match (x = x + 1) { 5 => 1 };\nx\n")
+    out.append("let r = match null { 1 => 2 };\nlet s = match true { 1 => 2, _ => 3 };\nlet t = match \"a\" { 1..3 => 2 };\n")
+    for k in range(ctx.scale(600, 20000)):
+        src = c02.core_program(ctx.rng, typed=(k % 2 == 0))
+        if "match" in src:
+            out.append(src)
+    return out
+
+
 def cases(ctx):
     rng = ctx.rng
     progs = table_programs(ctx) + chain_programs() + loop_programs(rng, ctx.scale(1500, 60000))
@@ -182,4 +216,7 @@ def cases(ctx):
     # translation validation: Bcv (the verified bytecode verifier) on the real bytecode of every program; the VM model runs it
     vl = vmrun_lines(ctx, srcs)
     out += [Case(l, (t, "vm"), extra={"src": s}) for l, (t, s) in zip(vl, progs)]
+    csrcs = core_match_programs(ctx)
+    cl = lang_lines(ctx, csrcs, op="core")
+    out += [Case(l, ("core-match",), extra={"src": s}) for l, s in zip(cl, csrcs)]
     return out
